@@ -31,6 +31,9 @@ def run(ctx):
         common.require_tlc_ok(ctx, gc, "GenCtl")
         go = common.tlc(ctx, "GenColl", cfg="GenColl_2", workers=8, timeout=6000)
         common.require_tlc_ok(ctx, go, "GenColl")
+        gj = common.tlc(ctx, "GenObj", cfg="GenObj_2", workers=8, timeout=6000, want_tags=("CASE", "DECLS"))
+        common.require_tlc_ok(ctx, gj, "GenObj / Sound")
+        gj_sim = common.tlc(ctx, "GenObj", cfg="GenObj_sim", workers=8, timeout=1500, simulate=1000, depth=6)["cases"]["CASE"] if not ctx.quick else []
         go_sim = common.tlc(ctx, "GenColl", cfg="GenColl_sim", workers=8, timeout=1500, simulate=1500, depth=6)["cases"]["CASE"] if not ctx.quick else []
     erows, prows = ge["cases"]["CASE"], gp["cases"]["CASE"]
 
@@ -39,7 +42,7 @@ def run(ctx):
             return list(rows)
         buckets = {}
         for r in rows:
-            key = tuple(sorted(t for t in r["feats"] if t.startswith(("bin:", "binshape:", "bin-same", "un:", "call:", "index:", "slice", "stmt:", "match:", "pat:", "arm:", "data:", "subject:", "ctl:", "ctx:", "jump", "matchform:", "coll:", "m:", "f:", "listcomp", "dictcomp", "closure", "setidx:", "n:fstr", "n:tuple", "n:tfield"))))
+            key = tuple(sorted(t for t in r["feats"] if t.startswith(("bin:", "binshape:", "bin-same", "un:", "call:", "index:", "slice", "stmt:", "match:", "pat:", "arm:", "data:", "subject:", "ctl:", "ctx:", "jump", "matchform:", "coll:", "m:", "f:", "listcomp", "dictcomp", "closure", "setidx:", "n:fstr", "n:tuple", "n:tfield", "obj", "n:setfield", "n:ctord"))))
             buckets.setdefault(key, []).append(r)
         keys = sorted(buckets)
         rnd.shuffle(keys)
@@ -59,10 +62,11 @@ def run(ctx):
     drows = gd["cases"]["CASE"]
     cases += [pipeline.data_case(r, k) for k, r in enumerate(pick(drows, 110 if ctx.quick else 1396))]
     cases += [pipeline.ctl_case(r, k) for k, r in enumerate(pick(gc["cases"]["CASE"], 120 if ctx.quick else 3000))]
+    cases += [pipeline.obj_case(r, k, gj["cases"]["DECLS"][0]) for k, r in enumerate(pick(gj["cases"]["CASE"], 100 if ctx.quick else 2000) + gj_sim)]
     cases += [pipeline.coll_case(r, k) for k, r in enumerate(pick(go["cases"]["CASE"], 160 if ctx.quick else 3000) + go_sim)]
     with ctx.timed("self_check"):
         rej = pipeline.self_check_exprs(ctx, [c for c in cases if c["kind"] == "expr"])
-        rej.update(pipeline.self_check_progs(ctx, [c for c in cases if c["kind"] in ("prog", "coll")]))
+        rej.update(pipeline.self_check_progs(ctx, [c for c in cases if c["kind"] in ("prog", "coll", "obj")]))
         rej.update(pipeline.self_check_data(ctx, [c for c in cases if c["kind"] == "data"]))
         pipeline.self_check_ctl(ctx, [c for c in cases if c["kind"] == "ctl"])
     cases = [c for c in cases if c["id"] not in rej]
@@ -77,7 +81,7 @@ def run(ctx):
         if st == "check":
             continue            # not accepted by the real checker: outside C02's quantifier
         n_accepted += 1
-        distinct.add(c["decls"] if c["kind"] == "ctl" else ("\n".join(c["body"]) if c["kind"] == "coll" else " ; ".join(c["body"][-4:])))
+        distinct.add(c["decls"] if c["kind"] == "ctl" else ("\n".join(c["body"]) if c["kind"] in ("coll", "obj") else " ; ".join(c["body"][-4:])))
         if st in ("emit", "build"):
             ctx.fail(e["symptom"], {"src": c["body"], "diagnostic": e["detail"]},
                      "accepted by the checker but the generated project does not build", tags=c["tags"])
